@@ -51,8 +51,8 @@ Definition read_at (st : kv) (h : handle) (len : nat) (off : Z) : kv * handle * 
     else
       let e := Z.min (off + Z.of_nat len) mx in
       let '(st2, h2, ok) := f_data st1 h1 in
-      if negb ok then (st2, h2, [], Some (Bare EOTHER))
-      else if (off <? 0)%Z then (st2, h2, [], Some (Bare EOTHER))     (* blob.View bounds error *)
+      if negb ok then (st2, h2, [], Some (PathErr (h_path h) EOTHER))
+      else if (off <? 0)%Z then (st2, h2, [], Some (PathErr (h_path h) EOTHER))     (* blob.View bounds error *)
       else
         let d := sublist (Z.to_nat off) (Z.to_nat e) (cell st2 (h_cell h2)) in
         (st2, h2, d, if (e =? mx)%Z then Some (Bare EEOF) else None).
@@ -78,7 +78,7 @@ Definition write_at (st : kv) (h : handle) (d : list N) (off : Z) : kv * handle 
         let n := Z.of_nat (length d) in
         let h4 := if (n =? 0)%Z then h3 else stamp_clock h3 in
         let '(st5, h5, e) := save st4 h4 in
-        (st5, h5, n, e).
+        (st5, h5, n, option_map (wrap (h_path h)) e).
 
 Fixpoint stat_children (st : kv) (dir : str) (names : list str) : kv * (list (str * N) + err) :=
   match names with
@@ -201,7 +201,7 @@ Definition hstep (st : kv) (i : nat) (o : hop) : kv * hres :=
       if h_closed h then (st, HRErr (Some (closed_err h)))
       else
         let '(st1, h1, e) := save st (with_mode_ov h (chmod_mode (f_mode h) m)) in
-        (put_handle st1 i h1, HRErr e)
+        (put_handle st1 i h1, HRErr (option_map (wrap (h_path h)) e))
     | HSync => (st, HRErr (Some (not_impl h)))
     | HClose =>
       if h_closed h then (st, HRErr (Some (closed_err h)))
